@@ -16,7 +16,7 @@ RULE = (
     "strict descent, range and colex-successor; kernel: recorded triples of dbal_fast_gauss_scoring_vectorized for "
     "n in 3..40 and budgets around C(n,3); behavioural kernel cases: for n<=6 the score must equal the estimator over SOME set of min(budget,C(n,3)) distinct triples "
     "(subset search), and for n in 30..400 a scripted generator hands the kernel indices at the C(a,3) block boundaries and the score must equal the estimator over the "
-    "triples those indices denote (own unranking). Non-trivial = k>=2 and the index range has an interior (C(n,k)>=3) "
+    "triples those indices denote (own unranking); many-triple cases: n in 20..40 with a budget covering all C(n,3) in 1140..9880 triples (incl. the default 5000) must give the estimator over every triple once, and 1025..4100 scripted indices (non-round counts) the estimator over exactly those. Non-trivial = k>=2 and the index range has an interior (C(n,k)>=3) "
     "[exhaustive (n,k) pairs], or k>=2 and index neither first nor last [sampled], or a kernel case with n>=4. "
     "distinct = distinct (kind,n,k,index/budget)."
 )
@@ -97,8 +97,22 @@ def _scorer_subset_case(draw):
     return {"kind": "scorer_subset", "n": n, "budget": draw(st.integers(1, c + 1)), "max_chunk": draw(st.sampled_from([1, 1, 2, 3])), "n_plates": draw(st.integers(2, 5)), "seed": draw(st.integers(0, 2**32 - 1))}
 
 
+@st.composite
+def _kernel_many(draw):
+    """thousands of triples in one call: either all of them (budget >= C(n,3) > 1024, incl. the default budget 5000), or a
+    scripted non-round number of sampled indices"""
+    if draw(st.booleans()):
+        n = draw(st.integers(20, 40))
+        c = math.comb(n, 3)
+        budget = draw(st.sampled_from([c, c + 1, 5000 if c <= 5000 else c, 2 * c]))
+        return {"kind": "kernel_all_many", "n": n, "budget": budget, "seed": draw(st.integers(0, 2**32 - 1))}
+    n = draw(st.integers(40, 400))
+    m = draw(st.one_of(st.integers(1025, 4100), st.sampled_from([1025, 2047, 2049, 2500, 3333, 4097])))
+    return {"kind": "kernel_scripted_many", "n": n, "m": min(m, math.comb(n, 3) - 1), "seed": draw(st.integers(0, 2**32 - 1))}
+
+
 def strategy(tier):
-    return st.one_of(_sampled(), _sampled(), _sampled(), _kernel(), _kernel_subset(), _kernel_scripted(), _scorer_subset_case())
+    return st.one_of(_sampled(), _sampled(), _sampled(), _kernel(), _kernel_subset(), _kernel_scripted(), _scorer_subset_case(), _kernel_many())
 
 
 def _unrank3(i):
@@ -228,6 +242,13 @@ def _behavioural_kernel(case, gd):
     d = d + d.T
     np.fill_diagonal(d, 0)
     c = math.comb(n, 3)
+    if case["kind"] == "kernel_all_many":
+        # the budget covers all C(n,3) > 1024 triples: the score is the estimator over every triple exactly once
+        score = float(f(preds[None], var[None], d, np.random.default_rng(case["seed"] + 1), max_combos=case["budget"])[0])
+        all_triples = [tuple(sorted(x, reverse=True)) for x in itertools.combinations(range(n), 3)]
+        expect = _lse(_triple_terms(preds, var, d, all_triples))
+        require(abs(score - expect) <= 1e-9 * (1 + abs(expect)), "kernel.all_triples_once", lambda: "n=%d budget=%d: the score is %r, the estimator over each of the %d triples exactly once is %r (exp difference x count: %r)" % (n, case["budget"], score, c, expect, (math.exp(score - expect) - 1) * c))
+        return {"nontrivial": True, "labels": ["kernel_all_many.triples>=%d" % (1024 * (c // 1024))]}
     if case["kind"] == "kernel_subset":
         b = min(case["budget"], c)
         score = float(f(preds[None], var[None], d, np.random.default_rng(case["seed"] + 1), max_combos=case["budget"])[0])
@@ -242,14 +263,18 @@ def _behavioural_kernel(case, gd):
         return {"nontrivial": n >= 4, "labels": ["kernel_subset.all" if b == c else "kernel_subset.subsampled"]}
     # scripted generator: indices at the starts/ends of the blocks C(a,3), plus drawn ones
     idx = set()
-    for pick in case["picks"]:
+    if case["kind"] == "kernel_scripted_many":
+        # a pure function of the case: m distinct indices spread over the whole range
+        idx = set(int(x) for x in np.random.default_rng(case["seed"] + 5).choice(c, size=case["m"], replace=False))
+    for pick in case.get("picks", []):
         a = 3 + pick % max(1, n - 3)
         for delta in (-1, 0, 1):
             i = math.comb(a, 3) + delta
             if 0 <= i < c:
                 idx.add(i)
         idx.add(pick % c)
-    idx |= {0, c - 1}
+    if case["kind"] != "kernel_scripted_many":
+        idx |= {0, c - 1}
     idx = sorted(idx)
 
     class Scripted:
@@ -272,6 +297,8 @@ def _behavioural_kernel(case, gd):
     triples = [_unrank3(i) for i in idx]
     expect = _lse(_triple_terms(preds, var, d, triples))
     require(abs(score - expect) <= 1e-9 * (1 + abs(expect)), "kernel.uses_the_unranked_triples", lambda: "n=%d: with the sampled indices %r... the score is %r, the estimator over the triples those indices denote is %r" % (n, idx[:6], score, expect))
+    if case["kind"] == "kernel_scripted_many":
+        return {"nontrivial": True, "labels": ["kernel_scripted_many"], "counts": {"scripted_indices": len(idx)}}
     return {"nontrivial": True, "labels": ["kernel_scripted.n>=247" if n >= 247 else "kernel_scripted"], "counts": {"scripted_indices": len(idx)}}
 
 
@@ -299,7 +326,7 @@ def check_case(case):
 
     unrank = attach(gd, "get_combination_at_sorted_index")
     kind = case["kind"]
-    if kind in ("kernel_subset", "kernel_scripted"):
+    if kind in ("kernel_subset", "kernel_scripted", "kernel_all_many", "kernel_scripted_many"):
         return _behavioural_kernel(case, gd)
     if kind == "scorer_subset":
         return _scorer_subset(case, gd)
